@@ -23,9 +23,9 @@ def plan(ctx):
     k = P.per_interp_shards(ctx)
     for v in ctx.producers:
         if ctx.tier == "quick":
-            cases = P.corpus_cases(ctx, v, n_files=300, n_w3=120, modes=30, max_file_bytes=200000)
+            cases = P.corpus_cases(ctx, v, n_files=300, n_extra=40, n_w3=120, modes=30, max_file_bytes=200000)
         else:
-            cases = P.corpus_cases(ctx, v, all_files=True, n_w3=1000, modes=150)
+            cases = P.corpus_cases(ctx, v, all_files=True, all_extra=True, n_w3=1000, modes=150)
         shards.extend(P.split(ctx, v, cases, k, "C09:"))
     return shards
 
